@@ -172,6 +172,60 @@ theorem handlers_not_misled_partial (ops : List Op) (ha : ∀ op ∈ ops, op.ann
       exact dormantFrom_mono T _ _ _ (by intro hh; cases hh) h
     rw [hlive] at hu; cases hu
 
+/-- **Silent-aware version**: histories WITH the reconciling `UpdateEvent` and with `DeleteTopic`. For every crash
+point outside the window, every live topic and every id whose last change in (recorded ++ remaining) was announced
+(`silent … = false`: the last thing that touched it was a `Collect`, or nothing did), the handlers' last word is
+the level the id ends in. (`UpdateEvent`/`DeleteTopic` tell no handler by design; an id they touched last is
+excluded by the explicit decidable predicate `silent`.) -/
+theorem handlers_not_misled_silent_aware (ops : List Op) (k j : Nat) (hw : inWindow ops k j = false) (T id : String)
+    (hlive : dormant (survived ops k (crashDone ops k j)) T = false)
+    (hs : silent (survived ops k (crashDone ops k j)) T id = false) :
+    lastTold (recover {} ops k j).told T id = (recover {} ops k j).mem.level T id := by
+  obtain ⟨_, hc, hd, hcl, hi⟩ := multiCrash_spec {} rfl coherent_init ops [(k, j)]
+  have hinf := hi false T id (by simp [noWindow, hw]) (fun _ => rfl) hs
+  have hrec : multiCrash {} ops [(k, j)] = recover {} ops k j := rfl
+  rw [hrec] at hc hd hcl hinf
+  rw [hinf]
+  rcases hc T id with h | ⟨h, _⟩
+  · exact h.symm
+  · have := hcl T h
+    have hsv : multiSurvived crashDone ops [(k, j)] = survived ops k (crashDone ops k j) := rfl
+    rw [hsv] at this
+    unfold dormant at hlive
+    rw [hlive] at this; cases this
+
+/-! ### Any number of crashes -/
+
+/-- **Several process deaths** (each at any sub-step of any remaining operation), restart after each, then the
+remaining data: the disk holds, for every id, the level last recorded by the surviving history
+(`multiSurvived`: per crash the recorded part, then what remained), and every live topic shows it. -/
+theorem multi_crash_same_final_state (ops : List Op) (cs : List (Nat × Nat)) (T id : String) :
+    (multiCrash {} ops cs).disk.level T id = lastLevel (multiSurvived crashDone ops cs) T id ∧
+    (dormant (multiSurvived crashDone ops cs) T = false →
+      (multiCrash {} ops cs).mem.level T id = (run {} (multiSurvived crashDone ops cs)).mem.level T id) := by
+  obtain ⟨_, hc, hd, hcl, _⟩ := multiCrash_spec {} rfl coherent_init ops cs
+  refine ⟨hd T id, fun hlive => ?_⟩
+  rw [uninterrupted_memory_tracks _ T id hlive]
+  rcases hc T id with h | ⟨h, _⟩
+  · rw [h]; exact hd T id
+  · have := hcl T h
+    unfold dormant at hlive
+    rw [hlive] at this; cases this
+
+/-- … and if none of the crash points lies in a notify→transaction window, the handlers' last word is the final
+level of every live topic's id whose last change was announced. -/
+theorem multi_crash_handlers_not_misled (ops : List Op) (cs : List (Nat × Nat)) (hw : noWindow ops cs = true)
+    (T id : String) (hlive : dormant (multiSurvived crashDone ops cs) T = false)
+    (hs : silent (multiSurvived crashDone ops cs) T id = false) :
+    lastTold (multiCrash {} ops cs).told T id = (multiCrash {} ops cs).mem.level T id := by
+  obtain ⟨_, hc, _, hcl, hi⟩ := multiCrash_spec {} rfl coherent_init ops cs
+  rw [hi false T id hw (fun _ => rfl) hs]
+  rcases hc T id with h | ⟨h, _⟩
+  · exact h.symm
+  · have := hcl T h
+    unfold dormant at hlive
+    rw [hlive] at this; cases this
+
 /-- **Counterexample (finding `notify-before-persist`)**: one CRITICAL event, process death after the handlers
 were told and before the transaction: the id resumes as OK and ends OK, the handlers' last word is CRITICAL.
 Replayed on the real code by corpus/C08/finding-notify-before-persist.ops. -/
@@ -217,6 +271,17 @@ example :
     dormant (survived ops 3 (crashDone ops 3 4)) "t" = false ∧
     lastLevel (recorded ops 3 false) "t" "a" = 3 ∧ lastLevel (recorded ops 3 true) "t" "a" = 0 ∧
     (recover {} ops 1 4).mem.level "t" "b" = 2 ∧ (recover {} ops 3 3).mem.level "t" "a" = 3 := by
+  decide
+
+/-- two crashes (one inside an `UpdateEvent`, one after a `Collect`), a silent id and an announced one -/
+example :
+    let ops := [Op.collect "t" "a" 3 1, Op.update "t" "b" 2 2, Op.collect "t" "a" 1 3, Op.collect "t" "c" 2 4]
+    let cs := [(1, 1), (0, 4)]
+    noWindow ops cs = true ∧ dormant (multiSurvived crashDone ops cs) "t" = false ∧
+    multiSurvived crashDone ops cs = [Op.collect "t" "a" 3 1, Op.collect "t" "a" 1 3, Op.collect "t" "c" 2 4] ∧
+    silent (multiSurvived crashDone ops cs) "t" "a" = false ∧
+    silent [Op.collect "t" "a" 3 1, Op.update "t" "a" 2 2] "t" "a" = true ∧
+    (multiCrash {} ops cs).mem.level "t" "a" = 1 ∧ (multiCrash {} ops cs).mem.level "t" "b" = 0 := by
   decide
 
 end Kap.Props.C08
